@@ -468,8 +468,14 @@ func checkC10(c *Ctx) {
 		"定义环：\n\t其数 = 0\n\t如何转？\n\t\t输出 以其（转）\n输出 以（新建环）（转）\n",
 		"定义环：\n\t其数 = 0\n如何新建环？\n\t其数 =（新建环）\n输出（新建环）\n",
 		"如何深？\n\t输入层\n\t输出 1 +（深：层 + 1）\n\n\t拦截异常：\n\t\t输出 -1\n输出（深：1）\n",
+		// the recursive call sits inside nested blocks / a deep operand / nested literals: each
+		// call costs much more Go stack than a bare one
+		c10NestedRecursion(12, "block"), c10NestedRecursion(40, "block"), c10NestedRecursion(300, "operand"), c10NestedRecursion(30, "literal"), c10NestedRecursion(1500, "literal"),
+		// gigantic flat expressions (the chain limit of the parser is 100000 links)
+		"输出 " + strings.Repeat("1 + ", 99000) + "1\n", "令甲 = 【1】\n输出 甲" + strings.Repeat("之长度", 1) + " + " + strings.Repeat("1 * ", 99000) + "1\n",
+		"令甲 = 真\n输出 " + strings.Repeat("甲 且 ", 99000) + "甲\n",
 	} {
-		if c.Quick() && wi != 1 && wi != 2 {
+		if c.Quick() && wi != 1 && wi != 2 && wi != 5 && wi != 7 && wi != 8 && wi != 10 {
 			continue // (each takes seconds: every other one in the quick tier)
 		}
 		r1 := execReq(w)
@@ -519,4 +525,24 @@ func checkC10(c *Ctx) {
 				map[string]interface{}{"req": req})
 		}
 	})
+}
+
+// c10NestedRecursion: a method that calls itself for ever, the call sitting inside n nested
+// blocks / operand braces / list literals.
+func c10NestedRecursion(n int, how string) string {
+	var sb strings.Builder
+	sb.WriteString("如何深？\n\t输入层\n")
+	switch how {
+	case "block":
+		for i := 0; i < n; i++ {
+			sb.WriteString(strings.Repeat("\t", i+1) + []string{"如果 真：\n", "以项遍历【1】：\n", "每当 真：\n"}[i%3])
+		}
+		sb.WriteString(strings.Repeat("\t", n+1) + "输出（深：层 + 1）\n")
+	case "operand":
+		sb.WriteString("\t输出 " + strings.Repeat("{1 + ", n) + "（深：层 + 1）" + strings.Repeat("}", n) + "\n")
+	case "literal":
+		sb.WriteString("\t输出 " + strings.Repeat("【", n) + "（深：层 + 1）" + strings.Repeat("】", n) + "\n")
+	}
+	sb.WriteString("输出（深：1）\n")
+	return sb.String()
 }
